@@ -454,6 +454,14 @@ fn build_other(kind: &str, rng: &mut Rng, sim: &mut Sim, ck: &mut Checker, v6: b
             sim.end = t0 + dur;
             sim.schedule(t0, format!("nnew 0 {} addr={} ro={} port=none routers=- nodes={}", hex(&me), addr_str(&a), rng.below(2), dash(&nodes)));
             sim.schedule(sim.end, "api 0 state".into());
+            // searches at arbitrary moments of the run — also while the node, bootstrapped once, is in the
+            // middle of a re-bootstrap against contacts that are down ([C04]: every one of them must end)
+            if dur > 150 * S {
+                for _ in 0..rng.range(2, 5) {
+                    let at = t0 + 20 * S + rng.below(((dur - 100 * S) / MS) as u64) as u128 * MS;
+                    sim.schedule(at, format!("api 0 search {} {}", hex(&rng.bytes(20)), rng.below(2)));
+                }
+            }
         }
         // C11: always-answering contacts and contacts that go silent for good, hours of idling
         "fresh" => {
